@@ -1,17 +1,44 @@
 """C10 - simulated and numerical integrals equal the average / integral they denote."""
-CONTRACT_MODULES = ['c01_values', 'c01_signatures']
+CONTRACT_MODULES = ['c01_values', 'c01_signatures', 'c03_idmanager', 'c10c_draws']
 LEVEL = 'other'
-TRUSTED = ['pyvc', 'z3 5.1.0', 'ENGINE-SPEC: MonteCarlo = mean over draws, Integrate = Gauss-Hermite quadrature, Derive = partial derivative (assumed; sampled)']
-ASSUMPTIONS = ['A-STR-TOK', 'ENGINE-SPEC']
+TRUSTED = ['pyvc', 'z3 5.1.0', 'ENGINE-SPEC: MonteCarlo = mean over draws, Integrate = Gauss-Hermite quadrature, Derive = partial derivative (assumed; sampled)',
+           'pyvc/libext/c10c_numpy.py: A-NDARRAY-C10 (np.array of equally shaped arrays stacks along a new first axis; np.moveaxis(A, 0, -1) of a 3-d array; '
+           'both return new objects) and A-NATIVE-TABLE, sample-tested by bounded/c10c_numpy_axioms.py',
+           'contracts/c10c_static.py: syntactic obligations on IdManager.prepare and BIOGEME.__init__ (ast)']
+ASSUMPTIONS = ['A-STR-TOK', 'ENGINE-SPEC',
+               'A-NDARRAY-C10 A1-A3 (assumed array model, sampled)', 'A-NATIVE-TABLE (the native generator table is one pre-existing dict object; content: C11)',
+               'A-CALLABLE: a stored generator is a deterministic, effect-free function of (generator object, sample size, number of draws) -- the random state is not modelled',
+               'A-DICT-WF for IdManager.draws.expressions (Optional[dict] field, once None is excluded)',
+               'generate_draws / _generate_draws under contract: Database.typesOfDraws is an object of its own (not the draw_types argument, the names list, '
+               'the user generator dictionary, the native table or the id manager\'s dictionary); every name handed over has a declared type',
+               'set_id_manager under contract: the id manager has been prepared (tables not None, the name is numbered) and satisfies the proved '
+               'post-condition of expressions_names_indices (indices[names[q]] == q)']
 EXPLANATION = ('Proved: the signature lines of Derive and Integrate carry the index of the element named in the operator (looked up by name in the id manager) and the id of their '
-               'argument.  Averaging over draws, quadrature accuracy and differentiation are engine-internal: assumed, sampled by the bounded harness with coded deterministic draws.')
-LEVEL_TEXT = 'Index hand-over of Derive/Integrate proved; averaging/quadrature/differentiation assumed (external engine) with a bounded stand-in.'
+               'argument.  Averaging over draws, quadrature accuracy and differentiation are engine-internal: assumed, sampled by the bounded harness with coded deterministic draws.  '
+               'Round 2 (c10c): Database.generate_draws is proved for all inputs (assumed array model): position k of the third axis of the table holds the series of the generator '
+               'registered for the type of names[k] (native table first, then user generators), shape (sample size, draws, names), BiogemeError iff a type is unknown or a series is '
+               'wrongly shaped, types recorded; IdManager.draw_types, BIOGEME._generate_draws (sorted draw names in id order, declared types, requested number) and '
+               'bioDraws/RandomVariable.set_id_manager + get_signature (the id in the signature is the position of the name in that same list) are proved; the numbering inside '
+               'IdManager.prepare, the seeding and the setDraws hand-over in BIOGEME.__init__ are static (ast) obligations.')
+LEVEL_TEXT = ('Index hand-over of Derive/Integrate proved; averaging/quadrature/differentiation assumed (external engine) with a bounded stand-in.  '
+              'The draws table (variable <-> column <-> signature index, generator per declared type, shape, errors) is proved for all inputs under an assumed, sampled numpy array model.')
 LEVEL_NOTE = 'Trusted: pyvc, z3, ENGINE-SPEC.'
 TECHNIQUE = 'contract-based deductive verification (signature positions) + bounded stand-in with coded draws and closed-form integrals'
 DESIGN_REF = 'DESIGN.md section 3 / C10'
 
 
+try:
+    from contracts.c10c_static import CHECKS as _C10C_CHECKS, REPLAY_STATIC as _C10C_REPLAY
+    REPLAYS = {name: _C10C_REPLAY for name, _ in _C10C_CHECKS}
+except ImportError:      # pragma: no cover  (tools that only read the metadata)
+    REPLAYS = {}
+
+
 def extra(tier, seed):
     from pyvc.bounded import run_native
-    return [run_native('C10:bounded:integrals', 'c10_integrals.py', [tier, str(seed)],
+    from contracts.c10c_static import extras as c10c_static
+    return c10c_static(tier, seed) + [
+        run_native('C10:bounded:numpy-axioms', 'c10c_numpy_axioms.py', [tier, str(seed)],
+                   bound='sample test of the ASSUMED array model: 6 (thorough 55) 2-d shapes x 1,2,3,5 stacked arrays; list repetition; 21 native entries', timeout=300),
+        run_native('C10:bounded:integrals', 'c10_integrals.py', [tier, str(seed)],
                        bound='see the harness bound string: 48 MC formulas with 2-3 draw variables of different types, R in {1,2,5}; seeds; 56 Gaussian integrals; 16 Derive cases', timeout=1500)]
